@@ -175,7 +175,7 @@ def valid_context(rng, entry):
 
 
 NOT_DF = [[1, 2], 'table', 7, None, {'a': [1, 2]}, np.zeros((2, 2))]
-NOT_TOK = ['ws', 3, object(), ['a'], None]
+NOT_TOK = ['ws', 3, object(), ['a'], None, '', 0, [], {}, False, 0.0, ()]
 
 
 def make_invalid(rng, entry, kind, call, objs):
